@@ -239,7 +239,6 @@ void run_case(Input const& in, Ctx& ctx) {
 		}
 		case OP_GEMV: case OP_GEMV_LAZY: {
 			long m = d.size(), n = d.size();
-			if(n == 0 && !vp::known_mode()) { n = 1; ctx.count("excluded_gemv_empty_inner_dimension"); }  // recorded known finding: xGEMV returns at once when n == 0 and leaves y unscaled (y != beta*y)
 			MSpec sa = d.mspec(true); VSpec sx = d.vspec(false), sy = d.vspec(false);
 			T alpha = d.scalar(), beta = d.scalar();
 			int lazy_form = static_cast<int>(form % 3U);
@@ -268,7 +267,6 @@ void run_case(Input const& in, Ctx& ctx) {
 		}
 		case OP_DOT: {
 			long n = d.size(); VSpec sx = d.vspec(true), sy = d.vspec(true);
-			if(n == 0 && !vp::known_mode()) { n = 1; ctx.count("excluded_dot_of_empty_vectors"); }  // (complex dot goes through xGEMV, which returns at once for n == 0 and leaves the result unset: same recorded finding as gemv)
 			auto x = d.vec(n, 1), y = d.vec(n, 2);
 			pr(ctx.desc, "x", sx, n); pr(ctx.desc, "y", sy, n);
 			T want = mkT(0, 0); for(long i = 0; i < n; ++i) { want += x[static_cast<std::size_t>(i)]*y[static_cast<std::size_t>(i)]; }
